@@ -57,6 +57,12 @@ def main():
             else:
                 h = CubicHermiteInterp(t0, t1, P(t0), P(t1), dP(t0), dP(t1))
             got = float(h(x)) if fn.endswith("__call__") else float(h.grad(x))
+            if "a" not in g:
+                # end-value / end-slope clauses on arbitrary data
+                e0, e1 = (g["p0"], g["p1"]) if fn.endswith("__call__") else (g["m0"], g["m1"])
+                ok = (x != t0 or got == e0) and (x != t1 or got == e1)
+                print(json.dumps(dict(returned=got, expected_at_t0=e0, expected_at_t1=e1, clause_value=bool(ok))))
+                return
             want = req.get("want")
             if want is None:
                 want = P(x) if fn.endswith("__call__") else dP(x)
